@@ -28,4 +28,11 @@ def opHeaderCheck (j : Json) : Json :=
               ("spec_required", Json.arr (specReq.map fun h => jstr h.name).toArray),
               ("spec_gate_bad", Json.arr (gateBad.map fun h => jstr h.name).toArray)]
 
+/-- `published_headers`: the header parameters the OpenAPI document lists for an operation, in order. -/
+def opPublishedHeaders (j : Json) : Json :=
+  let svc := (getArr j "service").map hspecOf
+  let meth := (getArr j "method").map hspecOf
+  Json.mkObj [("published", Json.arr ((combineHeaders svc meth).map fun h =>
+    Json.mkObj [("name", jstr h.name), ("required", Json.bool h.required)]).toArray)]
+
 end Sebuf.Driver
